@@ -661,6 +661,28 @@ def infidelity_derivative(
                                                                  n_oper_identifiers,
                                                                  n_coeffs_deriv)
 
+    if n_coeffs_deriv is not None:
+        # The component of a noise operator along the identity does not
+        # contribute to the infidelity (cf. numeric.infidelity). It does not
+        # depend on the control, but it does on the noise sensitivities, so
+        # its derivative needs to be discarded as well if those are
+        # control-dependent.
+        traces = np.einsum('ajj', pulse.n_opers[n_idx]).real/np.sqrt(pulse.d)
+        exp_buf, int_buf = np.empty((2, len(omega), 1, 1), dtype=complex)
+        segment_integral = np.array([
+            numeric._first_order_integral(omega, np.zeros(1), dt, exp_buf, int_buf)[:, 0, 0].copy()
+            for dt in pulse.dt
+        ]) * util.cexp(np.multiply.outer(pulse.t[:-1], omega))
+        identity_component = traces[:, None]*(pulse.n_coeffs[n_idx] @ segment_integral)
+        identity_component_deriv = (
+            traces[:, None, None, None]
+            * np.swapaxes(n_coeffs_deriv, 1, 2)[..., None]
+            * segment_integral[None, :, None, :]
+        )
+        filter_function_deriv = filter_function_deriv - 2*(
+            identity_component.conj()[:, None, None, :]*identity_component_deriv
+        ).real
+
     integrand = np.einsum('...o,...tho->...tho', spectrum, filter_function_deriv)
     infid_deriv = util.integrate(integrand, omega) / (2*np.pi*pulse.d)
 
